@@ -1,4 +1,5 @@
 import OntVerif.Model.NeoProg
+import OntVerif.Model.NeoInt
 /-!
 # Model of the NeoVM executor as a machine over byte code (C12)
 
@@ -24,8 +25,13 @@ Values live on the heap of `Model/NeoVal.lean` (containers are references; shari
 Integers are mathematical (`Int`) with the 32-byte size limit of `IntValFromBigInt`; Go's `int`/`int64` arithmetic on indexes
 is exact here because every operand is bounded by a length (≤ 2^20) before it is used.
 Maps are kept sorted by key (`NeoVal.mapSet`), so KEYS / VALUES need no iteration-order parameter.
-Outside the model (`R.unmod`): SYSCALL, APPCALL, TAILCALL, the integer opcodes not listed in `modelledOp` (C13 models them), the hash /
-signature opcodes, EQUAL on two structs (`reflect.DeepEqual`, Go library code), integer conversion of a byte array longer than 33 bytes.
+The integer opcodes go through `Model/NeoInt.lean` (C13: `execUnary / execBinary / execWithin`, code as shipped). EQUAL on two structs is
+`reflect.DeepEqual` with its `visited` set and an explicit nesting budget: where Go's stack ends the outcome is `R.overflow` (a fatal
+stack overflow, known finding). SYSCALL is modelled for `System.Runtime.Serialize / Deserialize / Notify` (C14's functions; `Serialize`
+is a parameter `serF` of the step so that the driver can plug an explicit-stack evaluator).
+Outside the model (`R.unmod`): every other syscall, APPCALL, TAILCALL, the hash / signature opcodes, integer conversion of a byte array
+longer than 33 bytes, `Serialize` of a value from which a map with two or more entries is reachable (Go's map order decides what the
+shipped detector sees: C14 / C15).
 -/
 namespace OntVerif.Model.NeoExec
 open OntVerif.Util OntVerif.Model.Codec OntVerif.Model.NeoVal OntVerif.Model.NeoProg
@@ -34,6 +40,7 @@ open OntVerif.Util OntVerif.Model.Codec OntVerif.Model.NeoVal OntVerif.Model.Neo
 heap (not a Go state), model loop budget exhausted -/
 inductive R (α : Type) where
   | ok (a : α) | fault | panic | unmod | dangling | fuel
+  | overflow   -- the Go recursion exceeds the goroutine stack limit: `fatal error: stack overflow` (only `reflect.DeepEqual` under EQUAL)
   deriving Repr
 
 def R.bind {α β : Type} : R α → (α → R β) → R β
@@ -43,6 +50,7 @@ def R.bind {α β : Type} : R α → (α → R β) → R β
   | .unmod, _ => .unmod
   | .dangling, _ => .dangling
   | .fuel, _ => .fuel
+  | .overflow, _ => .overflow
 
 instance : Monad R where
   pure := R.ok
@@ -346,6 +354,7 @@ structure M where
   eval : Stack := []
   alt : Stack := []
   heap : Heap := []
+  notes : Nat := 0               -- `len(service.Notifications)`
   allowEOF : Bool := false       -- `VmFeatureFlag.AllowReaderEOF`
   disableHasKey : Bool := false  -- `VmFeatureFlag.DisableHasKey`
   deriving Repr
@@ -355,8 +364,9 @@ def MAX_ARRAY_SIZE_I : Int := 1024
 /-- the opcodes `step` models; every other byte is `R.unmod` -/
 def modelledOp (op : Nat) : Bool :=
   (op ≤ 0x60 && op != 0x50) ||
-  [0x61, 0x62, 0x63, 0x64, 0x65, 0x66, 0x6A, 0x6B, 0x6C, 0x6D, 0x6E, 0x72, 0x73, 0x74, 0x75, 0x76, 0x77, 0x78, 0x79, 0x7A, 0x7B, 0x7C, 0x7D,
-   0x7E, 0x7F, 0x80, 0x81, 0x82, 0x87, 0x8B, 0x8C, 0x91, 0x93, 0x94, 0x9F, 0xA0,
+  [0x61, 0x62, 0x63, 0x64, 0x65, 0x66, 0x68, 0x6A, 0x6B, 0x6C, 0x6D, 0x6E, 0x72, 0x73, 0x74, 0x75, 0x76, 0x77, 0x78, 0x79, 0x7A, 0x7B, 0x7C, 0x7D,
+   0x7E, 0x7F, 0x80, 0x81, 0x82, 0x83, 0x84, 0x85, 0x86, 0x87, 0x8B, 0x8C, 0x8D, 0x8F, 0x90, 0x91, 0x92, 0x93, 0x94, 0x95, 0x96, 0x97, 0x98, 0x99,
+   0x9A, 0x9B, 0x9C, 0x9E, 0x9F, 0xA0, 0xA1, 0xA2, 0xA3, 0xA4, 0xA5,
    0xC0, 0xC1, 0xC2, 0xC3, 0xC4, 0xC5, 0xC6, 0xC7, 0xC8, 0xC9, 0xCA, 0xCB, 0xCC, 0xCD, 0xF0, 0xF1].contains op
 
 /-- push on the evaluation stack and continue -/
@@ -625,6 +635,65 @@ def opSize (m : M) : R M := do
     let (arr, d) ← popAsBytes m.eval
     pushE m d (.int arr.length)
 
+/-! ### `reflect.DeepEqual` on VM values (EQUAL on two structs) -/
+
+/-- nesting levels of containers `reflect.DeepEqual` can descend before the 1 GB goroutine stack is exhausted (~3.4 KB per level:
+`deepValueEqual` for the VmValue struct, the pointer, the ArrayValue struct, the slice). Measured on go1.23.5 linux/amd64: two equal,
+separately built arrays nested 293750 deep compare equal, nested 300000 deep the process dies. -/
+def DEEPEQ_LEVELS : Nat := 295000
+
+inductive DQ where
+  | res (b : Bool) (vis : List (Ref × Ref))
+  | overflow
+  | dangling
+
+/-- reflect's `visited` map: keyed by the unordered pair of addresses -/
+def seenPair (vis : List (Ref × Ref)) (a b : Ref) : Bool :=
+  vis.any fun p => (p.1 == a && p.2 == b) || (p.1 == b && p.2 == a)
+
+/-- elements of two slices of equal length, left to right, stopping at the first difference -/
+def deepList (rec : List (Ref × Ref) → Val → Val → DQ) : List (Ref × Ref) → List Val → List Val → DQ
+  | vis, [], [] => .res true vis
+  | vis, a :: as, b :: bs =>
+    match rec vis a b with
+    | .res true vis' => deepList rec vis' as bs
+    | r => r
+  | vis, _, _ => .res false vis
+
+/-- the values of the entries of map `a` paired with the entries of `b` under the same key (`MapIndex`); `none`: a key is missing -/
+def mapPairs : List Entry → List Entry → Option (List Val × List Val)
+  | [], _ => some ([], [])
+  | e :: es, bs =>
+    match mapGet e.key bs, mapPairs es bs with
+    | some e', some (xs, ys) => some (e.kv :: e.val :: xs, e'.kv :: e'.val :: ys)
+    | _, _ => none
+
+/-- `deepValueEqual` of two `VmValue`s: `valType` first, then the one field in use. First argument: nesting budget. -/
+def deepVal (h : Heap) : Nat → List (Ref × Ref) → Val → Val → DQ
+  | _, vis, .int x, .int y => .res (decide (x = y)) vis
+  | _, vis, .bool x, .bool y => .res (x == y) vis
+  | _, vis, .bytes x, .bytes y => .res (x == y) vis
+  | 0, _, .ref _, .ref _ => .overflow
+  | f+1, vis, .ref a, .ref b =>
+    match h[a]?, h[b]? with
+    | some (.arr xs), some (.arr ys) | some (.struct xs), some (.struct ys) =>
+      if seenPair vis a b then .res true vis else
+      let vis := (a, b) :: vis
+      if a = b then .res true vis else
+      if xs.length ≠ ys.length then .res false vis else
+      deepList (deepVal h f) vis xs ys
+    | some (.map xs), some (.map ys) =>
+      if seenPair vis a b then .res true vis else
+      let vis := (a, b) :: vis
+      if a = b then .res true vis else
+      if xs.length ≠ ys.length then .res false vis else
+      match mapPairs xs ys with
+      | none => .res false vis
+      | some (l, r) => deepList (deepVal h f) vis l r
+    | some _, some _ => .res false vis
+    | _, _ => .dangling
+  | _, vis, _, _ => .res false vis
+
 /-- EQUAL -/
 def opEqual (m : M) : R M := do
     let (right, d) ← vsPop m.eval
@@ -637,17 +706,72 @@ def opEqual (m : M) : R M := do
         match m.heap[a]?, m.heap[b]? with
         | some (.map _), some (.map _) => pushE m d (.bool (a == b))
         | some (.arr _), some (.arr _) => pushE m d (.bool (a == b))
-        | some (.struct _), some (.struct _) => .unmod       -- reflect.DeepEqual
+        | some (.struct _), some (.struct _) =>
+          match deepVal m.heap DEEPEQ_LEVELS [] left right with    -- reflect.DeepEqual(self.structval, other.structval)
+          | .res r _ => pushE m d (.bool r)
+          | .overflow => .overflow
+          | .dangling => .dangling
         | some _, some _ => pushE m d (.bool false)          -- valType differs
         | _, _ => .dangling
       | .ref a, _ => (match m.heap[a]? with | some _ => pushE m d (.bool false) | none => .dangling)
       | _, .ref b => (match m.heap[b]? with | some _ => pushE m d (.bool false) | none => .dangling)
       | _, _ => pushE m d (.bool false)
 
-/-- INC DEC -/
-def opIncDec (m : M) (opn : Nat) : R M := do
-    let (x, d) ← popAsIntValue m.eval
-    let v ← intResult (if opn = 0x8B then x + 1 else x - 1)
+/-! ### integer opcodes: `Model/NeoInt.lean` (C13), the code as shipped -/
+
+/-- a primitive VM value as C13 sees it (the canonical Go representation: int64 when it fits, `*big.Int` otherwise) -/
+def toNI : Val → Option NeoInt.Val
+  | .int z => some (if NeoInt.isInt64 z then .int (BitVec.ofInt 64 z) else .bigint z)
+  | .bool b => some (.bool b)
+  | .bytes d => some (.bytes d)
+  | .ref _ => none
+
+def ofNI : NeoInt.Val → Val
+  | .int i => .int i.toInt
+  | .bigint z => .int z
+  | .bool b => .bool b
+  | .bytes d => .bytes d
+
+def niResult : Except NeoInt.Fault NeoInt.Val → R Val
+  | .ok v => .ok (ofNI v)
+  | .error _ => .fault
+
+def unaryOf (opn : Nat) : NeoInt.UOp :=
+  if opn = 0x83 then .invert else if opn = 0x8B then .inc else if opn = 0x8C then .dec else if opn = 0x8D then .sign
+  else if opn = 0x8F then .negate else if opn = 0x90 then .abs else .nz
+
+def binaryOf (opn : Nat) : NeoInt.BOp :=
+  if opn = 0x84 then .and else if opn = 0x85 then .or else if opn = 0x86 then .xor else if opn = 0x93 then .add
+  else if opn = 0x94 then .sub else if opn = 0x95 then .mul else if opn = 0x96 then .div else if opn = 0x97 then .mod
+  else if opn = 0x98 then .shl else if opn = 0x99 then .shr else if opn = 0x9C then .numequal else if opn = 0x9E then .numnotequal
+  else if opn = 0x9F then .lt else if opn = 0xA0 then .gt else if opn = 0xA1 then .lte else if opn = 0xA2 then .gte
+  else if opn = 0xA3 then .min else .max
+
+/-- INVERT INC DEC SIGN NEGATE ABS NZ -/
+def opUnaryInt (m : M) (opn : Nat) : R M := do
+    let (x, d) ← vsPop m.eval
+    let a ← ofOpt (toNI x)
+    let v ← niResult (NeoInt.execUnary .asShipped (unaryOf opn) a)
+    pushE m d v
+
+/-- AND OR XOR ADD SUB MUL DIV MOD SHL SHR MIN MAX, NUMEQUAL NUMNOTEQUAL LT GT LTE GTE (right operand on top) -/
+def opBinaryInt (m : M) (opn : Nat) : R M := do
+    let (right, d) ← vsPop m.eval
+    let b ← ofOpt (toNI right)
+    let (left, d) ← vsPop d
+    let a ← ofOpt (toNI left)
+    let v ← niResult (NeoInt.execBinary .asShipped (binaryOf opn) a b)
+    pushE m d v
+
+/-- WITHIN: `x left right` pushed in this order -/
+def opWithin (m : M) : R M := do
+    let (right, d) ← vsPop m.eval
+    let b ← ofOpt (toNI right)
+    let (left, d) ← vsPop d
+    let a ← ofOpt (toNI left)
+    let (val, d) ← vsPop d
+    let x ← ofOpt (toNI val)
+    let v ← niResult (NeoInt.execWithin x a b)
     pushE m d v
 
 /-- NOT -/
@@ -655,20 +779,11 @@ def opNot (m : M) : R M := do
     let (x, d) ← popAsBool m.heap m.eval
     pushE m d (.bool (!x))
 
-/-- ADD SUB -/
-def opAddSub (m : M) (opn : Nat) : R M := do
-    let (right, d) ← popAsIntValue m.eval
-    let (left, d) ← popAsIntValue d
-    let v ← intResult (if opn = 0x93 then left + right else left - right)
-    pushE m d v
-
-/-- LT GT -/
-def opLtGt (m : M) (opn : Nat) : R M := do
-    let (rightVal, d) ← vsPop m.eval
-    let (leftVal, d) ← vsPop d
-    let left ← asBigInt leftVal
-    let right ← asBigInt rightVal
-    pushE m d (.bool (if opn = 0x9F then decide (left < right) else decide (left > right)))
+/-- BOOLAND BOOLOR: `PopPairAsBool` -/
+def opBoolBin (m : M) (opn : Nat) : R M := do
+    let (right, d) ← popAsBool m.heap m.eval
+    let (left, d) ← popAsBool m.heap d
+    pushE m d (.bool (if opn = 0x9A then left && right else left || right))
 
 /-- ARRAYSIZE -/
 def opArraySize (m : M) : R M := do
@@ -856,8 +971,10 @@ def opThrowIfNot (m : M) : R M := do
 /-- stack positions (0 = top) an opcode converts to an integer (`AsInt64` / `AsIntValue` / `AsBigInt`) -/
 def numericOperands (opn : Nat) : List Nat :=
   if opn = 0x6D ∨ opn = 0x72 ∨ opn = 0x73 ∨ opn = 0x79 ∨ opn = 0x7A ∨ opn = 0x80 ∨ opn = 0x81 ∨ opn = 0xC1 ∨ opn = 0xC5 ∨ opn = 0xC6 ∨
-     opn = 0x6E ∨ opn = 0xC3 ∨ opn = 0xCA ∨ opn = 0x8B ∨ opn = 0x8C then [0]
-  else if opn = 0x7F ∨ opn = 0x93 ∨ opn = 0x94 ∨ opn = 0x9F ∨ opn = 0xA0 then [0, 1]
+     opn = 0x6E ∨ opn = 0xC3 ∨ opn = 0xCA ∨
+     opn = 0x83 ∨ opn = 0x8B ∨ opn = 0x8C ∨ opn = 0x8D ∨ opn = 0x8F ∨ opn = 0x90 ∨ opn = 0x92 then [0]
+  else if opn = 0x7F ∨ opn = 0x84 ∨ opn = 0x85 ∨ opn = 0x86 ∨ (0x93 ≤ opn ∧ opn ≤ 0x99) ∨ opn = 0x9C ∨ (0x9E ≤ opn ∧ opn ≤ 0xA4) then [0, 1]
+  else if opn = 0xA5 then [0, 1, 2]
   else if opn = 0xC4 then [1]
   else []
 
@@ -870,8 +987,91 @@ def longNumeric (d : Stack) (opn : Nat) : Bool :=
     | some (.bytes b) => decide (b.length > 33)
     | _ => false
 
-/-- `ExecuteOp(opcode, context)` for one opcode byte that has just been read (`m.pos` is behind it) -/
-def step (m : M) (opn : Nat) : R M :=
+/-! ### SYSCALL: `NeoVmService.SystemCall` for the three runtime services that recurse over a value -/
+
+def nameSerialize : Bytes := "System.Runtime.Serialize".toUTF8.toList
+def nameDeserialize : Bytes := "System.Runtime.Deserialize".toUTF8.toList
+def nameNotify : Bytes := "System.Runtime.Notify".toUTF8.toList
+
+def objRefs : Obj → List Ref
+  | .arr vs | .struct vs => vs.filterMap fun v => match v with | .ref r => some r | _ => none
+  | .map es => es.filterMap fun e => match e.val with | .ref r => some r | _ => none
+
+/-- objects reachable from the frontier (work list; the budget `edges + objects + 2` is enough: every object is expanded once) -/
+def reachAux (h : Heap) : Nat → List Ref → List Ref → List Ref
+  | 0, _, seen => seen
+  | _+1, [], seen => seen
+  | f+1, r :: fr, seen =>
+    if seen.contains r then reachAux h f fr seen else
+    match h[r]? with
+    | some o => reachAux h f ((objRefs o) ++ fr) (r :: seen)
+    | none => reachAux h f fr (r :: seen)
+
+def reachable (h : Heap) (v : Val) : List Ref :=
+  match v with
+  | .ref r => reachAux h ((h.map fun o => (objRefs o).length + 1).sum + h.length + 2) [r] []
+  | _ => []
+
+/-- a map with two or more entries is reachable: what the shipped detector sees then depends on Go's map iteration order -/
+def hasMultiMap (h : Heap) (v : Val) : Bool :=
+  (reachable h v).any fun r => match h[r]? with | some (.map es) => decide (es.length ≥ 2) | _ => false
+
+/-- `RuntimeSerialize` -/
+def sysSerialize (serF : Heap → Val → Except VErr Bytes) (m : M) : R M := do
+    let (val, d) ← vsPop m.eval
+    if hasMultiMap m.heap val then .unmod else
+    match serF m.heap val with
+    | .ok b => do
+      let d ← pushBytes d b
+      pure { m with eval := d }
+    | .error .fuel => .overflow      -- the recursion did not return
+    | .error .dangling => .dangling
+    | .error _ => .fault
+
+/-- inputs of `Deserialize` up to this many bytes are modelled (a VmValue byte array is at most 1 MiB; the model's heap is a list and a
+megabyte of nested containers is beyond what the driver can allocate in reasonable time) -/
+def DESER_MODEL_LIMIT : Nat := 4096
+
+/-- `RuntimeDeserialize` -/
+def sysDeserialize (m : M) : R M := do
+    let (data, d) ← popAsBytes m.eval
+    if data.length > DESER_MODEL_LIMIT then .unmod else      -- larger inputs: outside the model (the driver's heap is a list)
+    match deserialize data with
+    | .ok (t, _) =>
+      let (v, h) := alloc (MAX_COUNT + 2) t m.heap
+      pushE { m with heap := h } d v
+    | .error .panic => .panic
+    | .error .fuel => .fuel
+    | .error _ => .fault
+
+/-- `RuntimeNotify` -/
+def sysNotify (m : M) : R M := do
+    let (item, d) ← vsPop m.eval
+    let ok ← convertHexOk m.heap item
+    if ok then pure { m with eval := d, notes := m.notes + 1 } else .fault
+
+/-- the rest of `SystemCall` once the length byte `fb` of the service name has been read (`pos` is behind it) -/
+def sysDispatch (serF : Heap → Val → Except VErr Bytes) (m : M) (fb pos : Nat) : R M :=
+    if fb ≥ 0xFD then .unmod else do       -- multi-byte name lengths: outside the model
+    let (name, pos') ← readBytes m.allowEOF m.code pos fb
+    -- a short read (only under AllowReaderEOF) leaves zero bytes in the name: no registered service has such a name
+    if pos + fb > m.code.length then .fault else
+    let m := { m with pos := pos' }
+    if name = nameSerialize then sysSerialize serF m
+    else if name = nameDeserialize then sysDeserialize m
+    else if name = nameNotify then sysNotify m
+    else .unmod
+
+/-- SYSCALL: `ReadVarString(MAX_BYTEARRAY_SIZE)` (the error of the first `ReadByte` is dropped by `ReadVarInt`: at the end of the code the
+length is 0), service lookup, handler. Gas is not modelled. -/
+def opSyscall (serF : Heap → Val → Except VErr Bytes) (m : M) : R M :=
+    match readByte m.code m.pos with
+    | .ok (b, p) => sysDispatch serF m b.toNat p
+    | _ => sysDispatch serF m 0 m.pos
+
+/-- `ExecuteOp(opcode, context)` (and `SystemCall` for SYSCALL) for one opcode byte that has just been read (`m.pos` is behind it).
+`serF` = `VmValue.Serialize` (the model's `serialize .asShipped` or an evaluator equal to it). -/
+def step (serF : Heap → Val → Except VErr Bytes) (m : M) (opn : Nat) : R M :=
   if !modelledOp opn then .unmod else
   if longNumeric m.eval opn then .unmod else
   -- checkFeaturesEnabled: HASKEY, KEYS, DCALL, VALUES
@@ -884,6 +1084,7 @@ def step (m : M) (opn : Nat) : R M :=
   else if opn = 0x62 ∨ opn = 0x63 ∨ opn = 0x64 ∨ opn = 0x65 then opJmp m opn
   else if opn = 0x6E then opDcall m
   else if opn = 0x66 then opRet m
+  else if opn = 0x68 then opSyscall serF m
   else if opn = 0x6A then opDupFromAlt m
   else if opn = 0x6B then opToAlt m
   else if opn = 0x6C then opFromAlt m
@@ -905,10 +1106,11 @@ def step (m : M) (opn : Nat) : R M :=
   else if opn = 0x81 then opRight m
   else if opn = 0x82 then opSize m
   else if opn = 0x87 then opEqual m
-  else if opn = 0x8B ∨ opn = 0x8C then opIncDec m opn
+  else if opn = 0x83 ∨ opn = 0x8B ∨ opn = 0x8C ∨ opn = 0x8D ∨ opn = 0x8F ∨ opn = 0x90 ∨ opn = 0x92 then opUnaryInt m opn
   else if opn = 0x91 then opNot m
-  else if opn = 0x93 ∨ opn = 0x94 then opAddSub m opn
-  else if opn = 0x9F ∨ opn = 0xA0 then opLtGt m opn
+  else if opn = 0x9A ∨ opn = 0x9B then opBoolBin m opn
+  else if opn = 0xA5 then opWithin m
+  else if opn = 0x84 ∨ opn = 0x85 ∨ opn = 0x86 ∨ (0x93 ≤ opn ∧ opn ≤ 0x99) ∨ opn = 0x9C ∨ (0x9E ≤ opn ∧ opn ≤ 0xA4) then opBinaryInt m opn
   else if opn = 0xC0 then opArraySize m
   else if opn = 0xC1 then opPack m
   else if opn = 0xC2 then opUnpack m
@@ -928,11 +1130,11 @@ def step (m : M) (opn : Nat) : R M :=
 /-! ## the loop of `NeoVmService.Invoke` -/
 
 inductive Final where
-  | halt (m : M) | fault | panic | unmod | dangling | fuel | steplimit
+  | halt (m : M) | fault | panic | unmod | dangling | fuel | steplimit | overflow
   deriving Repr
 
 /-- `limit` opcodes at most (the harness' step limit; the node's is the gas limit) -/
-def run : Nat → M → Final
+def run (serF : Heap → Val → Except VErr Bytes) : Nat → M → Final
   | 0, m =>
     if m.ctxNil then .halt m else
     if position m.code m.pos ≥ m.code.length then .halt m else
@@ -944,13 +1146,14 @@ def run : Nat → M → Final
     if position m.code m.pos ≥ m.code.length then .halt m else
     match readByte m.code m.pos with
     | .ok (op, pos) =>
-      match step { m with pos := pos } op.toNat with
-      | .ok m' => run n m'
+      match step serF { m with pos := pos } op.toNat with
+      | .ok m' => run serF n m'
       | .fault => .fault
       | .panic => .panic
       | .unmod => .unmod
       | .dangling => .dangling
       | .fuel => .fuel
+      | .overflow => .overflow
     | .fault => .fault
     | .panic => .panic
     | _ => .fault
